@@ -361,7 +361,9 @@ struct Driver {
         destroySlot(a);
         srcI = parseInts(S(2));
         long cap = I(3);
-        if (!Cfg::template adoptInto<Driver>(*this, a, srcI, cap)) {
+        // (a capacity or a length the size_type cannot hold would be truncated by the cast: the library would be asked
+        //  something else than the script says - refused, as the model refuses it)
+        if (!FITS(cap) || !FITS(static_cast<long>(srcI.size())) || !Cfg::template adoptInto<Driver>(*this, a, srcI, cap)) {
           skipped = true;
           res = "skip:noadopt";
           goto done;
